@@ -194,7 +194,8 @@ let handle f = match f with
     let m = { pm_rc = (form = "rc"); pm_xlsx = (form = "xl"); pm_dot = bi dot; pm_row = zi row; pm_col = zi col } in
     let nm = names_of (if form = "xl" then "xl" else lang) in
     let env = { pe_sheets = !sheets; pe_ctx_sheet = !ctx_sheet; pe_defnames = !defnames; pe_tables = [] } in
-    let ts = print m nm e in
+    (* C09_POLICY=fixed: the printer with the proposed repair F02 (one-off validation against a patched crate, notes/C09.md) *)
+    let ts = if Sys.getenv_opt "C09_POLICY" = Some "fixed" then print_fixed m nm e else print m nm e in
     let glued = glue m.pm_rc ts in
     let toks = String.concat " " (List.map token_atom glued) in
     let back = match parse m nm env glued with Some (e', _) -> dump_s e' | None -> "P" in
